@@ -46,6 +46,42 @@ class SolView(object):
                     self.defaults[pname] = e[1].p
         self.P = world.symbolize(self.st, sol, cache_prefix=cache_prefix)
         self.terms = {}
+        self.binding_obligation()
+
+    def binding_obligation(self):
+        """the formulas are stated 'in the current parameters': every registered name must be bound to a member of its own (two names on one
+        member make a later masa_set_param of the one silently overwrite the other -- the evaluators then use values the caller never assigned)"""
+        done = self.chk.__dict__.setdefault('_bindings_done', set())
+        if (self.name, self.scalar) in done:
+            return
+        done.add((self.name, self.scalar))
+        by_addr, unbound = {}, []
+        for pname, (idx, a) in self.sol['params'].items():
+            if a is None:
+                unbound.append(pname)
+            else:
+                by_addr.setdefault((a.rid, a.off), []).append(pname)
+        shared = sorted(sorted(v_) for v_ in by_addr.values() if len(v_) > 1)
+        names = list(self.sol['params'])
+        view = self
+
+        def replay(ob, model):
+            import replay as rp
+            cxx = rp.SCALAR_CXX[view.scalar]
+            lines = ['masa_init<Scalar>("h","%s"); const char* n_[] = {%s}; const int N = %d; int bad = 0;' % (view.name, ', '.join('"%s"' % n for n in names), len(names)),
+                     'for(int pass = 0; pass < 2; pass++) {',
+                     '  for(int k = 0; k < N; k++) { int i = pass ? N-1-k : k; masa_set_param<Scalar>(n_[i], (Scalar)(1.5 + 0.25*i + pass)); }',
+                     '  for(int i = 0; i < N; i++) if(masa_get_param<Scalar>(n_[i]) != (Scalar)(1.5 + 0.25*i + pass)) { bad++; printf("\\nR clobbered %s pass %d\\n", n_[i], pass); }',
+                     '}', 'printf("\\nR bindings_ok %d\\n", bad == 0);']
+            src = '#include <masa.h>\n#include <cstdio>\nusing namespace MASA;\ntypedef %s Scalar;\nint main(){\n%s\n return 0;}\n' % (cxx, '\n'.join(lines))
+            rc, out, err = view.chk.lib().run(src)
+            if 'R bindings_ok 1' not in out:
+                path = view.chk.save_replay(ob, dict(obligation=ob.name, stdout=out[-1500:], rc=rc, shared=shared), src)
+                return dict(reproduced=True, path=path, detail='%s<%s>: parameters set by name (ascending, then descending order) do not all read back: %s' % (
+                    view.name, view.scalar, '; '.join(l for l in out.splitlines() if l.startswith('R clobbered'))[:200]))
+            return dict(reproduced=False, path=None, detail='real library: every parameter reads back')
+        self.chk.paths_clean('%s<%s>:every-registered-parameter-is-bound-to-a-member-of-its-own' % (self.name, self.scalar), [tm.TRUE] if (shared or unbound) else [],
+                             key='%s:parameter-binding' % self.name, family='parameter-binding', sample=dict(obligation='registration', shared_members=shared[:4], unbound=unbound[:4]), replay=replay)
 
     def p(self, n):
         return self.P[n]
